@@ -259,6 +259,86 @@ func c05(c *core.Ctx) {
 		c05Cancels(c, fns)
 		c.EndRule()
 	}
+
+	// ---------------------------------------------------------------- R7
+	if c.Rule("R7", "completion unblocks the peer: the server-done CancelFunc is called before the final blocking frame writes; the HTTP request pipe reader is closed on every path of the completion defer", 2) {
+		// (a) functions that write frames and call a CancelFunc field of their receiver
+		n := 0
+		for _, fn := range fns {
+			if fn.Signature.Recv() == nil || fn.Parent() != nil {
+				continue
+			}
+			var cancelCalls []ssa.Instruction
+			core.Instrs(fn, func(in ssa.Instruction) {
+				if cc := core.CallOf(in); cc != nil {
+					if _, _, ok := core.FieldOf(cc.Value); ok && core.TypeStr(cc.Value.Type()) == "context.CancelFunc" {
+						cancelCalls = append(cancelCalls, in)
+					}
+				}
+			})
+			core.InstrsDeep(fn, func(f *ssa.Function, in ssa.Instruction) {
+				if f == fn {
+					return
+				}
+				if cc := core.CallOf(in); cc != nil {
+					if _, _, ok := core.FieldOf(cc.Value); ok && core.TypeStr(cc.Value.Type()) == "context.CancelFunc" {
+						cancelCalls = append(cancelCalls, nil) // called from a nested literal (e.g. the deferred tail): too late
+					}
+				}
+			})
+			sends := sendSites([]*ssa.Function{fn})
+			if len(cancelCalls) == 0 || len(sends) == 0 {
+				continue
+			}
+			n++
+			key := core.FuncName(fn) + ":done-signal-before-final-writes"
+			ok := true
+			for _, s := range sends {
+				if !core.MustPass(core.Entry(fn), s.instr, func(x ssa.Instruction) bool {
+					for _, cc := range cancelCalls {
+						if cc != nil && cc == x {
+							return true
+						}
+					}
+					return false
+				}) {
+					ok = false
+				}
+			}
+			c.Check(ok, key, fn.Pos(), "the completion CancelFunc is called before every blocking frame write of this function", "a final frame write can block before the completion signal is given: a client blocked in SendMsg (full request buffer) and a server blocked writing its final frames deadlock")
+		}
+		if n == 0 {
+			c.Fail("inprocgrpc:finish", token.NoPos, "ANCHOR-MISSING: no function found that both signals completion through a CancelFunc field and writes final frames")
+		}
+		// (b) the closer of the HTTP message channel closes the request pipe reader on all paths
+		m := 0
+		for _, cl := range closers {
+			if cl.typ != "clientStream" || cl.field == "" {
+				continue
+			}
+			m++
+			key := core.FuncName(cl.fn) + ":pipe-closed-on-completion"
+			isPipeClose := func(x ssa.Instruction) bool {
+				cc := core.CallOf(x)
+				if cc == nil {
+					return false
+				}
+				ci := core.InfoOf(cc)
+				return ci.Is("io.PipeReader.CloseWithError") || ci.Is("io.PipeReader.Close")
+			}
+			ok := true
+			for _, r := range core.Returns(cl.fn) {
+				if !core.MustPass(core.Entry(cl.fn), r, isPipeClose) {
+					ok = false
+				}
+			}
+			c.Check(ok, key, cl.call.Pos(), "the request pipe reader is closed on every path of the completion function", "the completion function can finish without closing the request pipe reader: a SendMsg blocked on the request body never returns (and holds the write lock)")
+		}
+		if m == 0 {
+			c.Fail("httpgrpc:completion", token.NoPos, "ANCHOR-MISSING: no closer of the HTTP client stream's message channel found")
+		}
+		c.EndRule()
+	}
 }
 
 // isConstructorLike: the access initialises a composite literal (the base
@@ -423,6 +503,23 @@ func c05Closes(c *core.Ctx, ls *core.LockSets, fns []*ssa.Function) []closeSite 
 						} else if k, isI := core.ConstInt(st.Val); isI {
 							cs.flagField, cs.flagVal = f, fmt.Sprint(k)
 						}
+					}
+				}
+			}
+			// path-based: done=true stored on every path to the close, under the lock
+			if cs.field != "" {
+				if core.MustPass(core.Entry(fn), in, func(x ssa.Instruction) bool {
+					st, ok := x.(*ssa.Store)
+					if !ok {
+						return false
+					}
+					_, f, isF := core.FieldOf(st.Addr)
+					bv, isB := core.ConstBool(st.Val)
+					return isF && f == "done" && isB && bv
+				}) {
+					cs.doneBefore = cs.lock != ""
+					if cs.flagField == "" {
+						cs.flagField, cs.flagVal = "done", "true"
 					}
 				}
 			}
